@@ -70,6 +70,7 @@ fn run_tokens(toks: &[&str]) -> String {
         "REALNOW" => chan_time::realnow(args),
         "SCHED" => chan_now::sched(args),
         "SCHEDX" => chan_now::schedx(args),
+        "SCHEDT" => chan_now::schedt(args),
         "VALIDATE" => chan_ops::validate(args),
         "OPS" => chan_ops::ops(args),
         "OPSA" => chan_ops::ops(args), // model side: update_extensions written with the block-level operations
